@@ -17,7 +17,7 @@ import gen
 import mockca
 import tacdrun
 import vlib
-from ext import auditd_c20, sched_c20
+from ext import auditd_c20, interrupt_c20, sched_c20
 
 FINISH = dict(
     level="proof",
@@ -60,7 +60,15 @@ FINISH = dict(
          "(reverse, rotations) or all at once, a silent reachability connection opened first and kept open during the "
          "validation, finished vantage points' connections kept open while the next one handshakes; each vantage point "
          "waits 20 s for its handshake, one that gets no answer = validation failed (same judge). http-01-echo has no "
-         "such dimension: the proof is a file, the server that serves it is not part of the code under test.",
+         "such dimension: the proof is a file, the server that serves it is not part of the code under test. "
+         "INTERRUPTED ATTEMPTS (py/ext/interrupt_c20.py; all three groups): the attempt before the judged issuances ends "
+         "between its challenge hooks and its clean hooks — the daemon is killed (SIGKILL) while the CA holds the POST to "
+         "the challenge URL, or the first poll of the authorization after it, unanswered, and is started again on the same "
+         "directories; or the challenge POST is answered 500 until the attempt gives up and the same process tries again — "
+         "and the CA (mock-CA option reuse_pending_authz) gives the next order the SAME still-pending authorization, hence "
+         "the same token: the proof file / the running tacd with its pid file and socket of the interrupted attempt are "
+         "there when the challenge hooks run again. Judged: the issuances that follow (validated, nothing left after the "
+         "clean hooks). With a FRESH token after the interruption: observed and counted only.",
 )
 
 TOK_DIR = ".well-known/acme-challenge"
@@ -379,14 +387,14 @@ def judge(ctx, results):
         robj = {"sc": sc, "issuances": r["issuances"], "git": r.get("git"), "n_done": r["n_done"],
                 "stderr_tail": r["stderr_tail"][-600:]}
         if r["n_done"] < sc["n"]:
-            ctx.violation("group %s, identifier %s: only %d of %d issuances completed (%s)" % (
-                sc["group"], sc["ident"], r["n_done"], sc["n"],
+            ctx.violation("group %s, identifier %s%s: only %d of %d issuances completed (%s)" % (
+                sc["group"], sc["ident"], interrupt_c20.describe(sc), r["n_done"], sc["n"],
                 [i.get("error") or i.get("status") for i in r["issuances"]][-1:] or r["stderr_tail"][-200:]), robj)
             continue
         if not v.get("holds"):
             bad = [k for k, ok in enumerate(v.get("issuances_ok", [])) if not ok]
-            ctx.violation("group %s%s, identifier %s: %s" % (
-                sc["group"], "+git" if sc["git"] else "", sc["ident"],
+            ctx.violation("group %s%s, identifier %s%s: %s" % (
+                sc["group"], "+git" if sc["git"] else "", sc["ident"], interrupt_c20.describe(sc),
                 ("issuance %d: %s%s" % (bad[0] + 1, ("%s — " % r["issuances"][bad[0]]["error"]) if sc.get("schedule") and
                                         r["issuances"][bad[0]].get("error") else "",
                                         json.dumps(r["issuances"][bad[0]])[:300])) if bad
